@@ -4,7 +4,7 @@ import re, json
 def rows_for(root):
     rows=[]
     for l in open(f'{root}/results.txt'):
-        m=re.match(r'(C\d\d-[mnk]\d): (.*)',l.strip())
+        m=re.match(r'(C\d\d-[mnkj]\d): (.*)',l.strip())
         if not m: continue
         sid,res=m.groups()
         meta=json.load(open(f'{root}/{sid}/meta.json'))
@@ -26,13 +26,14 @@ def table(rows):
     for r in rows: out.append("| %s | %s | %s | %s |"%r)
     return "\n".join(out)
 r1,r2,r3=rows_for('/verif/seeded'),rows_for('/verif/seeded2'),rows_for('/verif/seeded3')
+r4=rows_for('/verif/seeded4')
 c=lambda r: sum(1 for x in r if x[2]=='caught')
 ob=lambda r: [x[0] for x in r if x[2]=='caught' and x[3].startswith('obligation')]
 bd=lambda r: [x[0] for x in r if x[2]=='caught' and x[3].startswith('bounded')]
 text=f'''
 ### 9.6 Seeded property-breaking changes
 
-Three batches of changes were written by independent sub-agents that saw only the property text and a scratch
+Four batches of changes were written by independent sub-agents that saw only the property text and a scratch
 worktree (never /verif); each compiles, keeps the whole existing test suite green, and comes with a demo test
 on the public API that fails with the change and passes without it.
 
@@ -57,7 +58,14 @@ on the public API that fails with the change and passes without it.
   definition instead of being trusted (C18); thin contracts on `getDocumentTitle` (C15), the embed id extractors
   (C19) and `iereader.NewParser` (C14); and a second round of generator dimensions (non-visible attribute text,
   structural extremes, srcset shapes, meta positions, raw title white space, embed query parameters).
-* The harness extensions of both rounds exposed 11 more genuine defects and 3 known findings on the unchanged
+* **Batch 4** (`/verif/seeded4/<id>-j1/`, 20 changes, again with different mechanisms and steered towards files the
+  earlier batches had not touched) had a **first-run rate of 14 of 20** (C01, C03, C05, C08, C10, C12, C13, C18, C20 by
+  named obligations; C04, C06, C09, C11, C16 by harness cases). Answers to the 6 misses: postconditions "an element
+  that becomes a media element is not walked" (C02) and "a content block labelled as title hands the label to all its
+  text elements" (C15), contracts tying the three embed extractors to the allow-list host test (C19), and a third
+  round of generator dimensions (media blocks with fallback text, cell content shapes, order of meta tags, markup of
+  the repeated title, pager containers, frame attributes other than src).
+* The harness extensions of all rounds exposed 17 more genuine defects and 5 known findings on the unchanged
   tree (§9.4) — including one (`Figure.GenerateOutput` with a hidden caption) that an earlier fix of this very
   effort had introduced and that the contract on the renderers caught.
 
@@ -79,10 +87,14 @@ Batch 3 (after strengthening): {c(r3)} of 20 reported.
 
 {table(r3)}
 
-Caught by a named contract/engine obligation: {len(ob(r1))} in batch 1, {len(ob(r2))} in batch 2 ({", ".join(x.split("-")[0] for x in ob(r2))}), {len(ob(r3))} in batch 3 ({", ".join(x.split("-")[0] for x in ob(r3))}); only by a bounded harness case: {len(bd(r1))}, {len(bd(r2))} ({", ".join(x.split("-")[0] for x in bd(r2))}) and {len(bd(r3))} ({", ".join(x.split("-")[0] for x in bd(r3))}). This split, and the first-run numbers above (9/20, 11/20), are the honest measure of how far the contracts reach and how well the harnesses generalise: string/regexp rewriting loops, the renderers' text, TreeClone, markup value handling and the pagination *heuristics* (as opposed to their index safety) are defended by enumeration only, and an enumeration only sees the dimensions somebody thought of.
+Batch 4 (after strengthening): {c(r4)} of 20 reported.
+
+{table(r4)}
+
+Caught by a named contract/engine obligation: {len(ob(r1))} in batch 1, {len(ob(r2))} in batch 2 ({", ".join(x.split("-")[0] for x in ob(r2))}), {len(ob(r3))} in batch 3 ({", ".join(x.split("-")[0] for x in ob(r3))}), {len(ob(r4))} in batch 4 ({", ".join(x.split("-")[0] for x in ob(r4))}); only by a bounded harness case: {len(bd(r1))}, {len(bd(r2))} ({", ".join(x.split("-")[0] for x in bd(r2))}), {len(bd(r3))} ({", ".join(x.split("-")[0] for x in bd(r3))}) and {len(bd(r4))} ({", ".join(x.split("-")[0] for x in bd(r4))}). This split, and the first-run numbers above (9/20, 11/20, 14/20), are the honest measure of how far the contracts reach and how well the harnesses generalise: string/regexp rewriting loops, the renderers' text, TreeClone, markup value handling and the pagination *heuristics* (as opposed to their index safety) are defended by enumeration only, and an enumeration only sees the dimensions somebody thought of.
 '''
 d=open('/verif/DESIGN.md').read()
 i=d.index('\n### 9.6 Seeded property-breaking changes'); j=d.index('\n### 9.8 Data-structure invariants')
 d=d[:i]+text.rstrip()+"\n"+d[j:]
 open('/verif/DESIGN.md','w').write(d)
-print(c(r1),c(r2),c(r3))
+print(c(r1),c(r2),c(r3),c(r4))
